@@ -416,6 +416,9 @@ def rule_prestate_rhs(repo: Repo) -> RuleResult:
             for t in n.targets:
                 if isinstance(t, ast.Subscript) and any("attr:state_fluents" in x for x in p.trace(t.value)):
                     stores.append(n)
+        if isinstance(n, ast.Expr) and isinstance(n.value, ast.Call) and isinstance(n.value.func, ast.Attribute) and \
+                n.value.func.attr in ("update", "__setitem__", "setdefault") and any("attr:state_fluents" in x for x in p.trace(n.value.func.value)):
+            stores.append(n)
     evals = [c for c in L.calls_in(ga.node) if callee_name(c) in ("_update_single_numeric_expression", "set_expression_value", "evaluate_expression")]
     r.site(ga.qn + " [evaluate-then-store]")
     if not stores or not evals:
@@ -425,6 +428,8 @@ def rule_prestate_rhs(repo: Repo) -> RuleResult:
     for s in st_nodes:
         after |= C.reachable_from(g, s) - {s}
     ev_nodes = {g.node_containing(e) for e in evals}
+    # an evaluation inside the very statement that stores (e.g. update({...: evaluate(...)})) builds all values before storing
+    ev_nodes = {n for n in ev_nodes if not (n in st_nodes and isinstance(g.stmt[n], ast.Expr))}
     if ev_nodes & (after | st_nodes):
         r.fail(Finding("C03.prestate_rhs", ga, "order:eval-after-store", "a numeric effect can be evaluated after another one of the same group was stored", node=stores[0]))
     else:
@@ -475,6 +480,7 @@ def rules(repo: Repo, tier: str) -> List[RuleResult]:
     from . import c06, c07
     out = [rule_antecedent(repo), rule_copy(repo), rule_delete_add(repo), rule_frame(repo), c12.rule_assign(repo, "C03.assign"),
            rule_prestate_rhs(repo), rule_universal(repo)]
-    out.append(c06.rule_conform(repo, "C03.range", only_funcs=("Operator._apply_universal_effects",)))
+    out.append(c06.rule_range(repo, "C03.range", "Operator._apply_universal_effects", ("GroundedEffect",)))
+    out.append(c06.rule_conform(repo, "C03.conform", only_funcs=("Operator._apply_universal_effects",), floor=0))
     out.append(c07.rule_escape(repo, "C03.escape"))
     return out
